@@ -47,8 +47,9 @@ ASSUMPTIONS = {
         'valid-input domain: finite parameter values of python int/float '
         'type; set_index not on the image surface; set_conic / conic pickups '
         'only on curved surfaces; set_thickness(0) only with a finite object',
-        'pickup sets are conflict-free (one pickup per target quantity, no '
-        'chains, a solve-controlled gap is neither source nor target) and '
+        'pickup sets are conflict-free (one pickup per target quantity, '
+        'chains only in dependency order, a solve-controlled gap is neither '
+        'source nor target) and '
         'solves are added in increasing surface order on surfaces >= 2 whose '
         'incoming marginal ray does not depend on the gap being solved '
         '(infinite object + EPD, objectNA, or EPD with the stop in front)',
